@@ -197,6 +197,7 @@ PROPS["C09"] = dict(
     assumptions=["QUIC path-MTU probes rejected by the inner transport are not size rejections of application payloads", "loss of accepted payloads is allowed; deliveries must be complete"],
     subs=[
         R("C09.mtu_honest", "swarms", "TestC09MTU", 400, 16000, shrink=10, quick=dict(checks=400, shards=4, timeout=600)),
+        R("C09.mux_several_channels", "swarms", "TestC09MuxChannels", 200, 10000, shrink=10),
     ],
 )
 
@@ -257,6 +258,7 @@ PROPS["C11"] = dict(
     assumptions=["an Ask may fail for any reason; only wrong/empty/truncated successes and late returns are violations"],
     subs=[
         R("C11.mem_stacks", "swarms", "TestC11Mem", 240, 10000, shrink=10, quick=dict(checks=240, shards=4, timeout=600)),
+        R("C11.mbapp_reply_origin", "swarms", "TestC11MbappReplyOrigin", 200, 10000, shrink=10),
         R("C11.quic_ssh_stacks", "swarms", "TestC11Net", 32, 1200, shrink=10, quick=dict(checks=32, shards=4, timeout=600)),
     ],
 )
